@@ -103,6 +103,37 @@ func runC34(c *Ctx) {
 		wr := c.StoresD(parent, "&var:complit.whenRemoved")
 		c.Exists(parent, "the timer keeps the canceling whenRemoved", wr, 1)
 	}
+	// timers leave the table only through the canceling removals: nothing empties or deletes from the
+	// table directly (a timer dropped without whenRemoved keeps a live context and may still be started by
+	// a tick that already collected it)
+	var drops []Site
+	for _, fn := range c.FuncsWithPrefix("util.(*SimpleTimers).") {
+		for _, in := range allInstrs(fn) {
+			cc := callCommon(in)
+			if cc == nil || !cc.IsInvoke() || c.D(cc.Value) != "ts.timers" {
+				continue
+			}
+			switch cc.Method.Name() {
+			case "Remove", "RemoveValue", "Empty", "Close", "SetOrRemove":
+				drops = append(drops, Site{fn, in})
+			}
+		}
+	}
+	c.OnlyIn("timers dropped from the table", drops, 3, TS+"removeTimer", TS+"removeSameTimer", TS+"Stop")
+	if fn := c.Need(TS + "Stop"); fn != nil {
+		c.MP(fn, "Stop closes the table only after every timer was removed (and canceled)", c.CallsD(fn, "ts.timers.Close()"), 1, GCalled("ts.removeAllTimers()"))
+	}
+	for _, m := range []string{"StopAllTimers", "StopTimers"} {
+		if fn := c.Need(TS + m); fn != nil {
+			var rm []ssa.Instruction
+			rm = append(rm, c.CallsTo(fn, "(*util.SimpleTimers).removeAllTimers")...)
+			rm = append(rm, c.CallsTo(fn, "(*util.SimpleTimers).removeTimer")...)
+			c.Exists(fn, m+" removes through the canceling removal", rm, 1)
+		}
+	}
+	if fn := c.Need(TS + "StopOthers"); fn != nil {
+		c.Exists(fn, "StopOthers removes through StopTimers", c.CallsTo(fn, "(*util.SimpleTimers).StopTimers"), 1)
+	}
 	c.OnlyIn("store SimpleTimer.whenRemoved / getCtx", append(c.WhoStores("SimpleTimer", "whenRemoved"), c.WhoStores("SimpleTimer", "getCtx")...), 2, "util.NewSimpleTimer")
 	// R34.3 --------------------------------------------------------------------------------------
 	c.Rule("R34.3", "MustPass")
